@@ -175,6 +175,7 @@ def trafficBeforeScaleDown (pre : BS) (l : Label) (post : BS) : Bool :=
     stable one (a rollback is not a supersession) -/
 def superseded (s : BS) : Bool :=
   !s.gone && RolloutSM.Style.blueGreen = s.ro.style && s.ro.phase = .progressing && s.ro.reason = .inRolling && !s.ro.deleting &&
+  !s.ro.paused && s.world.wl.isSome &&
   (match s.ro.sub with
    | some sub => sub.canaryRev ≠ "" && sub.canaryRev ≠ s.world.updateRevision && s.world.updateRevision ≠ s.world.currentRevision
    | none => false)
